@@ -541,6 +541,18 @@ fn tmp_path(tag: &str) -> std::path::PathBuf {
     dir.join(format!("sodg-harness-{}-{tag}.bin", std::process::id()))
 }
 
+/// remove the file and every file beside it whose name starts with its stem (what a save() may have left there)
+fn remove_siblings(p: &std::path::Path) {
+    let (Some(dir), Some(stem)) = (p.parent(), p.file_stem().and_then(|s| s.to_str())) else { return };
+    if let Ok(rd) = std::fs::read_dir(dir) {
+        for e in rd.flatten() {
+            if e.file_name().to_str().is_some_and(|n| n.starts_with(stem)) {
+                let _ = std::fs::remove_file(e.path());
+            }
+        }
+    }
+}
+
 /// the bytes `save()` writes
 fn image_of(g: &AnyG) -> Result<Vec<u8>, String> {
     let p = tmp_path("save");
@@ -548,7 +560,13 @@ fn image_of(g: &AnyG) -> Result<Vec<u8>, String> {
     std::fs::write(&p, vec![0xABu8; 256 * 1024]).map_err(|e| e.to_string())?;
     with_g!(g, x => x.save(&p).map_err(|e| e.to_string()))?;
     let b = std::fs::read(&p).map_err(|e| e.to_string())?;
-    let _ = std::fs::remove_file(&p);
+    // and once more over its own image: the same bytes again
+    with_g!(g, x => x.save(&p).map_err(|e| e.to_string()))?;
+    let b2 = std::fs::read(&p).map_err(|e| e.to_string())?;
+    remove_siblings(&p);
+    if b != b2 {
+        return Err("a second save() of the same graph to the same path wrote other bytes".into());
+    }
     Ok(b)
 }
 
@@ -797,6 +815,10 @@ impl World {
                     Some(HS::Dead) => "dead".into(),
                     Some(HS::Live(g)) => {
                         let Some(Ok(img)) = guard(|| image_of(g)) else { return "panic".into() };
+                        // the path the cut images are loaded from has been saved to twice before: whatever a save()
+                        // leaves beside the file (a backup, a journal) is in place when the truncated file is loaded
+                        let lp = tmp_path("load");
+                        let _ = guard(|| with_g!(g, x => { let _ = x.save(&lp); let _ = x.save(&lp); }));
                         let size = img.len();
                         let mut tested = 0;
                         let mut bad = vec![];
@@ -813,6 +835,7 @@ impl World {
                                 None => bad.push(format!("{k}:panic")),
                             }
                         }
+                        remove_siblings(&lp);
                         format!("ok {size} {tested} bad=[{}]", bad.join(","))
                     }
                 }
